@@ -290,6 +290,11 @@ def gen_case(rng, tier):
     for _ in range(nops):
         want_map = rng.random() < 0.5
         name = rng.choice(MAP_OPS if want_map else ARRAY_OPS)
+        if rng.random() < 0.04:
+            # an array / a map built through the Python API from caller-owned containers that are modified afterwards
+            ops.append({'name': 'py-ctor', 'kind': 'array' if rng.random() < 0.6 else 'map',
+                        'args': [atom() for _i in range(rng.choice([1, 2, 3]))]})
+            continue
         if rng.random() < 0.12 and mode != 'reused-tokens':
             kind = 'map' if want_map else 'array'
             x1, x2 = pick(kind), pick(kind)
@@ -493,6 +498,30 @@ def run_case(case, world):
     for idx, op in enumerate(case['ops']):
         stats['ops'] += 1
         models = [(k, m) for k, m, _ in pool]
+        if op['name'] == 'py-ctor':
+            vals = [arg_value(a, pool) for a in op['args']]
+            try:
+                if op['kind'] == 'array':
+                    owned = list(vals)
+                    obj = XPathArray(XPath31Parser(), owned)
+                    snap = canon(obj)
+                    owned.append(vals[0])
+                    owned[0] = 'changed-by-caller'
+                else:
+                    owned = {'k%d' % i: v for i, v in enumerate(vals)}
+                    obj = XPathMap(XPath31Parser(), owned)
+                    snap = canon(obj)
+                    owned['later'] = vals[0]
+                    owned['k0'] = 'changed-by-caller'
+                if canon(obj) != snap:
+                    violate('MUTATED', 'mutated:python-container-adopted:%s' % op['kind'],
+                            'an %s built from a Python container changes when the caller modifies that container afterwards: '
+                            '%r -> %r' % (op['kind'], snap, canon(obj)), {'op:py-ctor'})
+                elif len(pool) < 10:
+                    pool.append((op['kind'], M.norm(snap), obj))
+            except Exception as e:
+                world.event(('py-ctor-error', idx, canon_exc(e)))
+            continue
         try:
             text, model = expr_and_model(op, models)
         except Exception:
